@@ -6,20 +6,7 @@ HERE = os.path.dirname(os.path.dirname(os.path.abspath(__file__)))
 ALL = [f"C{i:02d}" for i in range(1, 21)]
 
 # property -> (design section, level text, level note, technique)
-CHECKS = {
- "C15": ("6/C15",
-         "Coq theorems over Model/PdoLink.v (PdoMap.transmit / on_message / callbacks / remote_request / subscribe and the network's dispatch to PDO handlers) composed with the C05 bit-field theorems: for every layout, value, producer and consumer map, the value written and transmitted is the value the subscribed consumer reads together with the frame's timestamp; a frame updates exactly the maps subscribed to its COB-ID and invokes each of their callbacks once in order (for every history, by the no-duplicate-subscription invariant); transmit sends exactly COB-ID and data; RTR rule. Partial: the condition-variable wake-up of wait_for_reception is not modelled and only exercised with a real second thread",
-         "trusted: Coq kernel + vm_compute, correspondence harness; threading.Condition and python-can Message are not modelled",
-         "Coq proof (invariant over operation sequences + composition with C05) + model/implementation correspondence on random operation histories"),
- "C05": ("6/C05",
-         "Coq theorems over Model/Pdo.v (PdoMap layout, PdoVariable.get_data/set_data composed with the C04 codec) for every layout, every well-formed frame, every entry kind the property names (integer objects with their own length, sub-byte fields of 8-bit objects, BOOLEAN as one bit, REAL32/64) at every bit offset and every value: the value read is exactly the bit field (sign-extended from the mapped length), a write changes exactly the field bits to the value low bits and keeps the frame length, read-after-write, non-interference with disjoint fields, out-of-range values refused; tied to /repo by the regenerated type table and by evaluating model and implementation on the same layouts, frames and operation sequences",
-         "trusted: Coq kernel + vm_compute, gen_tables.py, correspondence harness; CPython int.from_bytes/to_bytes and bytearray slicing are modelled, not verified",
-         "Coq proof (bit-field lemmas over Z, induction on byte lists) + regenerated tables + model/implementation correspondence"),
- "C04": ("6/C04",
-         "Coq theorems over Model/Codec.v for every type of the regenerated STRUCT_TYPES table, every integer value and every byte string: exact little-endian two's-complement encoding, both round trips, rejection outside the range and for wrong lengths, BOOLEAN, REAL32/64 on bit patterns, ASCII and UTF-16 text round trips; the model is tied to /repo by the regenerated table and by evaluating model and implementation on the same cases",
-         "trusted: Coq kernel + vm_compute, gen_tables.py, correspondence harness; CPython struct float rounding and codecs are modelled, not verified",
-         "Coq proof (arithmetic, induction on byte lists) + regenerated tables + model/implementation correspondence"),
-}
+CHECKS = {k: (v["design_ref"], v["text"], v["note"], v["technique"]) for k, v in json.load(open(os.path.join(HERE, "tools", "manifest_entries.json"))).items()}
 
 NOT_YET = {p: "check not built yet (in progress; see DESIGN.md section 9 build order)" for p in ALL if p not in CHECKS}
 
